@@ -138,3 +138,51 @@ fn k_complex_mulassoc_small_int() {
     assert!((a * b) * c == a * (b * c));
     assert!(a * (b + c) == (a * b) + (a * c));
 }
+
+fn finite() -> f64 {
+    let x: f64 = kani::any();
+    kani::assume(x.is_finite());
+    x
+}
+
+/// identities, annihilation and commutativity of the complex type over ALL finite floats (not only small integers):
+/// these laws involve no rounding in the shipped formulas, so they hold exactly on the whole domain
+#[kani::proof]
+fn k_complex_identities_all_finite() {
+    use rsdd::util::semirings::{Complex, Semiring};
+    let a = Complex { re: finite(), im: finite() };
+    let (one, zero) = (Complex::one(), Complex::zero());
+    kani::cover!(a.re > 9007199254740992.0 && a.im == 1.0);
+    assert!(a + zero == a && zero + a == a);
+    assert!(a * one == a && one * a == a);
+    assert!(a * zero == zero && zero * a == zero);
+}
+#[kani::proof]
+fn k_complex_add_comm_all_finite() {
+    use rsdd::util::semirings::Complex;
+    let (a, b) = (Complex { re: finite(), im: finite() }, Complex { re: finite(), im: finite() });
+    let (s, t) = (a + b, b + a);
+    assert!((s.re == t.re || (s.re.is_nan() && t.re.is_nan())) && (s.im == t.im || (s.im.is_nan() && t.im.is_nan())));
+}
+/// the same for the real and the expected-utility types
+#[kani::proof]
+fn k_real_identities_all_finite() {
+    use rsdd::util::semirings::Semiring;
+    let a = RealSemiring(finite());
+    let (one, zero) = (RealSemiring::one(), RealSemiring::zero());
+    assert!(a + zero == a && zero + a == a);
+    assert!(a * one == a && one * a == a);
+    assert!(a * zero == zero && zero * a == zero);
+    let b = RealSemiring(finite());
+    let (s, t) = (a + b, b + a);
+    assert!(s == t || (s.0.is_nan() && t.0.is_nan()));
+}
+#[kani::proof]
+fn k_eu_identities_all_finite() {
+    use rsdd::util::semirings::Semiring;
+    let a = ExpectedUtility(finite(), finite());
+    let (one, zero) = (ExpectedUtility::one(), ExpectedUtility::zero());
+    assert!(a + zero == a && zero + a == a);
+    assert!(a * one == a && one * a == a);
+    assert!(a * zero == zero && zero * a == zero);
+}
